@@ -67,7 +67,7 @@ pub fn spec(id: &str) -> Option<Spec> {
       "C14" => Spec {
          id: "C14",
          level: "fault_enumeration",
-         quick_cases: 40000,
+         quick_cases: 80000,
          thorough_cases: 800000,
          rule: "Fault = the virtual clock jumps past the timeout at clock reading k. For every group (program, input, knobs, schedule plan) a dry run with a clock that ticks 1 ns per reading identifies the deadline checks of the uninterrupted run (the readings at which `elapsed()` is evaluated on the call's start instant), and then every deadline check (up to 49 per group; groups with more are counted as truncated) is executed as its own case: the clock jumps past the timeout exactly at that check, run_timeout returns false there, then an uninterrupted run() follows; further slots of a group are seeded sequences of up to 4 interruptions (ticking clocks, large jumps, timeout 0, Duration::MAX, pushes in between). Returned false => state must be a sound under-approximation of the fixed point; any completed call => exactly the fixed point. Non-trivial = the deadline actually struck (run_timeout returned false at least once) or, for parallel variants, >= 1 preemption; distinct = distinct (trace hash, strike reading) pairs.",
          assumptions: {
